@@ -789,7 +789,7 @@ fn c01_case(seed: u64, scen: u64, thorough: bool, prop: &str, want_reads: bool, 
     out
 }
 
-const C01_RULE: &str = "one scenario = a real cluster of 2..5 nodes (1-2 DCs, MemStore behind a recording wrapper) on a virtual-time runtime: 5..40 put/del/put_many/del_many through the public handle at random nodes and consistency levels, 1-2 keyspaces, 3-6 ids, clocks skewed up to +-10 min; every ConsistencyService message (direct and batch) gets an independent verdict from a seeded policy - deliver / drop / duplicate / drop the reply / hold for up to 2.5 s (= reorder); real distributor (1 s batches), in half of the scenarios the real poller; optionally a node that joins late (after deletes) and a node stopped and restarted on its storage; 35 % of the scenarios are 'sparse knowledge' ones (2-6 operations on 1-2 ids, 90 % of the messages lost, no background repair, mostly Consistency::None) in which every operation is known to its issuer only and the result rests on the order of the final exchanges. Then faults stop, held messages drain, and node i pulls from node j (repair_from = real repair_members with a fresh tracker) for EVERY ordered pair in random order, failpoints choosing which half of each exchange is applied first; an exchange that did not complete is retried, else the scenario is inconclusive. Oracle: LWW over all storage writes recorded anywhere (the operations that took effect); every node's get / get_many / iter_metadata must equal it (ids, bytes, stamps). Conservation of operations: for every (origin node, keyspace, id, put-or-delete) the number of distinct stamps written anywhere must not exceed the number of such operations the clients issued at that node (an operation carries one stamp wherever it travels), so a re-stamped or fabricated operation is reported even when the cluster converges on it. Preconditions re-checked: stamps within 3600 s, one stamp never names a put and a delete. Second kind of scenario (40 000 quick): operations RACING a repair exchange - direct replication to the polling node lost, the polled node's storage slow (each write takes 0/2/5/20 virtual ms); when the state request is about to be delivered the monitor wakes a client and holds the request up to that long; the client issues one operation at once (the actor is busy, the state request queues behind it) and the scenario's last operation (put new id / overwrite / delete) a little later (queues behind the state request); after 4 repair intervals the poller's own cycles must have converged every node to the LWW documents. Non-trivial = at least one message verdict was not 'deliver'; distinct = distinct hash of (operations, per-message verdict trace).";
+const C01_RULE: &str = "one scenario = a real cluster of 2..5 nodes (1-2 DCs, MemStore behind a recording wrapper) on a virtual-time runtime: 5..40 put/del/put_many/del_many through the public handle at random nodes and consistency levels, 1-2 keyspaces, 3-6 ids, clocks skewed up to +-10 min; every ConsistencyService message (direct and batch) gets an independent verdict from a seeded policy - deliver / drop / duplicate / drop the reply / hold for up to 2.5 s (= reorder); real distributor (1 s batches), in half of the scenarios the real poller; optionally a node that joins late (after deletes) and a node stopped and restarted on its storage; 35 % of the scenarios are 'sparse knowledge' ones (2-6 operations on 1-2 ids, 90 % of the messages lost, no background repair, mostly Consistency::None) in which every operation is known to its issuer only and the result rests on the order of the final exchanges. Then faults stop, held messages drain, and node i pulls from node j (repair_from = real repair_members with a fresh tracker) for EVERY ordered pair in random order, failpoints choosing which half of each exchange is applied first; an exchange that did not complete is retried, else the scenario is inconclusive. Oracle: LWW over all storage writes recorded anywhere (the operations that took effect); every node's get / get_many / iter_metadata must equal it (ids, bytes, stamps). Conservation of operations: for every (origin node, keyspace, id, put-or-delete) the number of distinct stamps written anywhere must not exceed the number of such operations the clients issued at that node (an operation carries one stamp wherever it travels), so a re-stamped or fabricated operation is reported even when the cluster converges on it. Preconditions re-checked: stamps within 3600 s, one stamp never names a put and a delete. Second kind of scenario (40 000 quick): operations RACING a repair exchange - direct replication to the polling node lost, the polled node's storage slow (each write takes 0/2/5/20 virtual ms); when the state request is about to be delivered the monitor wakes a client and holds the request up to that long; the client issues one operation at once (the actor is busy, the state request queues behind it) and the scenario's last operation (put new id / overwrite / delete) a little later (queues behind the state request); in further variants the held request is the document fetch (FetchDocs) or the poll instead of the state request, and the racing operations are issued at the POLLING node (all direct replication lost), so that a newer local write races the application of an older fetched version; after 4 repair intervals the poller's own cycles must have converged every node to the LWW documents. Non-trivial = at least one message verdict was not 'deliver'; distinct = distinct hash of (operations, per-message verdict trace).";
 
 /// Operations racing a repair exchange. Two or three nodes with the real poller; direct replication
 /// to the polling node B is lost; the polled node A has SLOW storage (every write takes d virtual ms,
@@ -823,6 +823,14 @@ async fn c01_race_scenario(seed: u64, scen: u64) -> CaseOut {
     let (turns_transport, turns_client) = (rng.gen_range(0..6u32), rng.gen_range(0..6u32));
     let wake = Arc::new(tokio::sync::Notify::new());
     let seen_getstate = Arc::new(std::sync::atomic::AtomicU32::new(0));
+    // which request of B's exchange with A is held: the state request, the request for the documents the
+    // diff named, or the poll that precedes both
+    let held_request = *["GetState", "GetState", "FetchDocs", "FetchDocs", "PollKeyspace"].choose(&mut rng).unwrap();
+    // where the racing operations are issued: at the polled node A (they race the reading of A's state) or
+    // at the polling node B (they race the application of what B fetched); in the second case no direct
+    // replication gets through at all, so A still serves its old version while B already holds a newer one
+    let race_at_b = rng.gen_bool(0.4);
+    let hold_ms = if held_request == "GetState" && !race_at_b { hold_ms } else { rng.gen_range(0..=30u64) };
     for nd in &cluster.nodes {
         let (wake, seen) = (wake.clone(), seen_getstate.clone());
         rv::set_policy(
@@ -831,10 +839,10 @@ async fn c01_race_scenario(seed: u64, scen: u64) -> CaseOut {
                 let (wake, seen) = (wake.clone(), seen.clone());
                 Box::pin(async move {
                     // direct replication never reaches B: repair has to carry everything
-                    if m.uri.contains("ConsistencyService") && m.to == addr_b {
+                    if m.uri.contains("ConsistencyService") && (m.to == addr_b || race_at_b) {
                         return rv::Verdict::Drop;
                     }
-                    if m.to == addr_a && m.uri.contains("GetState") && seen.fetch_add(1, std::sync::atomic::Ordering::SeqCst) == 0 {
+                    if m.to == addr_a && m.uri.contains(held_request) && seen.fetch_add(1, std::sync::atomic::Ordering::SeqCst) == 0 {
                         wake.notify_one();
                         if hold_ms > 0 {
                             tokio::time::sleep(Duration::from_millis(hold_ms)).await;
@@ -860,7 +868,7 @@ async fn c01_race_scenario(seed: u64, scen: u64) -> CaseOut {
         return out;
     }
     let racer = {
-        let (h, wake) = (ha.clone(), wake.clone());
+        let (h, wake) = (if race_at_b { cluster.nodes[1].handle() } else { ha.clone() }, wake.clone());
         tokio::spawn(async move {
             wake.notified().await;
             let h1 = h.clone();
@@ -890,6 +898,14 @@ async fn c01_race_scenario(seed: u64, scen: u64) -> CaseOut {
         },
     }
     out.count("operations_racing_an_exchange", 2);
+    out.counts.push((match (held_request, race_at_b) {
+        ("GetState", false) => "races_state_request_held_ops_at_the_polled_node",
+        ("GetState", true) => "races_state_request_held_ops_at_the_polling_node",
+        ("FetchDocs", false) => "races_document_fetch_held_ops_at_the_polled_node",
+        ("FetchDocs", true) => "races_document_fetch_held_ops_at_the_polling_node",
+        (_, false) => "races_poll_held_ops_at_the_polled_node",
+        (_, true) => "races_poll_held_ops_at_the_polling_node",
+    }, 1));
     // bounded progress: four more repair intervals, nothing else happens
     tokio::time::sleep(interval * 4 + Duration::from_secs(2)).await;
     let writes = cluster.all_writes();
@@ -901,7 +917,7 @@ async fn c01_race_scenario(seed: u64, scen: u64) -> CaseOut {
         }
     }
     let expect: BTreeSet<(Key, HLCTimestamp)> = model.iter().filter(|(_, v)| !v.1).map(|(k, v)| (*k, v.0)).collect();
-    out.nontrivial = Some(hash_of(&("race", n, kind, d, hold_ms, gap_ms, turns_transport, turns_client, interval.as_millis() as u64)));
+    out.nontrivial = Some(hash_of(&("race", n, kind, d, hold_ms, gap_ms, turns_transport, turns_client, interval.as_millis() as u64, held_request, race_at_b)));
     for nd in &cluster.nodes {
         let got: BTreeSet<(Key, HLCTimestamp)> = match store_listing(nd.inner.as_ref(), ks).await {
             Ok((live, _)) => live.into_iter().collect(),
@@ -915,7 +931,7 @@ async fn c01_race_scenario(seed: u64, scen: u64) -> CaseOut {
             out.violate(
                 "C01:background-repair-cycles-did-not-converge:operation-raced-a-repair-exchange",
                 json!({"node": nd.id, "live_documents": show(&got), "last_writer_wins": show(&expect), "second_racing_operation": (["put new id", "overwrite", "delete"][kind as usize]),
-                    "storage_write_takes_ms": d, "state_request_held_ms": hold_ms, "second_operation_after_ms": gap_ms,
+                    "storage_write_takes_ms": d, "held_request": held_request, "request_held_ms": hold_ms, "racing_operations_issued_at": (if race_at_b { "the polling node" } else { "the polled node" }), "second_operation_after_ms": gap_ms,
                     "turns_before_delivery": turns_transport, "turns_before_the_operation": turns_client, "repair_interval_ms": interval.as_millis() as u64,
                     "getstate_requests_seen": seen_getstate.load(std::sync::atomic::Ordering::SeqCst), "waited": "4 repair intervals + 2 s"}),
             );
@@ -1606,16 +1622,124 @@ async fn c16_poller_case(seed: u64, scen: u64) -> CaseOut {
     out
 }
 
+/// Membership changes handed to the store DURING A BURST OF WRITES: node 1 (poller parked) with two
+/// steady peers issues 100..10 000 Consistency::None puts within one batching interval (no virtual time
+/// passes), and while the task distributor still has all of them queued a further peer joins and one of the
+/// steady peers leaves. Afterwards membership is quiescent: the next None-level write must reach the
+/// joined peer within two batch windows and must not be addressed to the departed one.
+async fn c16_burst_case(seed: u64, scen: u64) -> CaseOut {
+    let mut out = CaseOut::default();
+    let mut rng = rng_for(seed, 0xC16_B0057, scen);
+    install_wall(vec![0; 16]);
+    let chaos = new_chaos(rng.gen(), [100, 0, 0, 0, 0], 1);
+    let repair = Duration::from_secs(100_000);
+    let mut nodes: Vec<CNode> = Vec::new();
+    for id in [2u8, 3, 4] {
+        let node = start_node(id, scen_addr(56, scen, id), "dc", Arc::new(MemStore::default()), Ctl::new(id), repair, true, None).await;
+        install_policy(node.addr, &chaos);
+        nodes.push(node);
+    }
+    let node1 = start_node(1, scen_addr(56, scen, 1), "dc", Arc::new(MemStore::default()), Ctl::new(1), repair, true, None).await;
+    install_policy(node1.addr, &chaos);
+    let mut membership: nv::NodeMembership = BTreeMap::from([(1u8, node1.member())]);
+    for nd in &nodes[..2] {
+        membership.insert(nd.id, nd.member());
+    }
+    node1.snap_tx.send(membership.clone()).unwrap();
+    tokio::time::sleep(Duration::from_millis(1_200 + rng.gen_range(0..900))).await;
+    let h = node1.handle();
+    let burst = *[100u64, 1_000, 4_000, 4_200, 5_000, 10_000].choose(&mut rng).unwrap();
+    let bulk = rng.gen_bool(0.3);
+    let t_before = tokio::time::Instant::now();
+    let mut k = 0u64;
+    while k < burst {
+        let r = if bulk && k + 4 <= burst {
+            let docs: Vec<(Key, Vec<u8>)> = (0..4).map(|j| (1_000 + k + j, vec![7u8])).collect();
+            k += 4;
+            h.put_many("ks", docs, Consistency::None).await.map(|_| ())
+        } else if k % 5 == 4 {
+            k += 1;
+            h.del("ks", 1_000 + k - 2, Consistency::None).await.map(|_| ())
+        } else {
+            k += 1;
+            h.put("ks", 1_000 + k - 1, vec![7u8], Consistency::None).await.map(|_| ())
+        };
+        if let Err(e) = r {
+            out.inconclusive = Some(format!("burst write failed: {e}"));
+            break;
+        }
+    }
+    let burst_took = t_before.elapsed();
+    // the burst is still queued at the distributor (its next tick is up to 1 s away): membership changes now
+    let joins = rng.gen_bool(0.8);
+    let leaves = rng.gen_bool(0.6) || !joins;
+    let (joined, gone) = (&nodes[2], &nodes[1]);
+    if joins {
+        membership.insert(joined.id, joined.member());
+        node1.snap_tx.send(membership.clone()).unwrap();
+        tokio::time::sleep(Duration::from_millis(1)).await;
+    }
+    if leaves {
+        membership.remove(&gone.id);
+        node1.snap_tx.send(membership.clone()).unwrap();
+        tokio::time::sleep(Duration::from_millis(1)).await;
+    }
+    // quiescent from here on
+    tokio::time::sleep(Duration::from_millis(2_500)).await;
+    chaos.lock().seen.clear();
+    let r = h.put("ks", 7, b"after-the-burst".to_vec(), Consistency::None).await;
+    if let Err(e) = r {
+        out.inconclusive = Some(format!("local put failed: {e}"));
+    }
+    tokio::time::sleep(Duration::from_millis(2_200)).await;
+    let addressed: BTreeSet<SocketAddr> = chaos.lock().seen.iter().map(|s| s.0).collect();
+    out.count("write_bursts_followed_by_membership_changes", 1);
+    out.count("writes_issued_in_bursts", burst);
+    if burst >= 4_096 {
+        out.count("bursts_of_more_than_4096_writes_in_one_batch_window", 1);
+    }
+    let desc = |extra: Value| json!({"writes_in_the_burst": burst, "bulk_calls": bulk, "virtual_ms_the_burst_took": burst_took.as_millis() as u64, "peer_joined_during_the_burst": joins, "peer_left_during_the_burst": leaves,
+        "addressed_by_the_next_write": addressed.iter().map(|a| a.to_string()).collect::<Vec<_>>(), "observed": extra});
+    if burst_took > Duration::from_millis(900) {
+        out.inconclusive = Some(format!("the burst took {burst_took:?} of virtual time: not inside one batch window"));
+    } else {
+        if joins && !holds(joined, "ks", 7, None, false).await {
+            out.violate("C16:live-peer-not-addressed-by-replication:joined-during-a-burst-of-writes", desc(json!({"peer_without_the_write_after_two_batch_windows": joined.id})));
+        }
+        if !holds(&nodes[0], "ks", 7, None, false).await {
+            out.violate("C16:live-peer-not-addressed-by-replication:steady-peer-after-a-burst-of-writes", desc(json!({"peer_without_the_write_after_two_batch_windows": nodes[0].id})));
+        }
+        if leaves && addressed.contains(&gone.addr) {
+            out.violate("C16:departed-peer-still-addressed-by-replication:left-during-a-burst-of-writes", desc(json!({"departed": gone.id})));
+        }
+    }
+    out.nontrivial = Some(hash_of(&("burst", scen, burst, bulk, joins, leaves)));
+    if !out.violations.is_empty() {
+        out.replay = Some(json!({"mode": "burst", "seed": seed, "scenario": scen}));
+    }
+    if scen == 0 {
+        out.sample = Some(desc(json!("sample")));
+    }
+    for nd in &nodes {
+        rv::unregister(nd.addr);
+    }
+    rv::unregister(node1.addr);
+    datacake_crdt::verif::set_wall(None);
+    out
+}
+
 pub fn c16_e2e(args: &Args) {
     let mut report = Report::new(
         args,
         "E2-cluster",
-        "end to end: 2..4 peers join node 1 one at a time, either after node 1's store extension subscribed (prompt subscriber) or BEFORE it was created (late subscriber); the repair poller is parked (interval 100 000 s) so only the task distributor can deliver. A Consistency::None put on node 1 must be in every live peer's storage after two batch windows; then one peer leaves the membership and, a batch window later, another None put must not be addressed to it (requests per destination counted by the transport policy) while the remaining peers still receive it; finally a remaining peer changes its address (same id, one delta with left=[id@old] joined=[id@new]) and a third put must arrive at the new address and not be sent to the old one. Second scenario (the repair poller's member list): node 1 runs the real poller (2 s) with two steady peers; a further node joins and leaves (or flaps, or moves to a new address before leaving) with 50..400 ms between the snapshots - usually several events between two poller ticks; once membership is quiescent, two full poller cycles are watched at the transport: exactly the live peers must be polled, never the departed node's addresses. Non-trivial: every scenario; distinct = (scenario, mode, peers, departed).",
+        "end to end: 2..4 peers join node 1 one at a time, either after node 1's store extension subscribed (prompt subscriber) or BEFORE it was created (late subscriber); the repair poller is parked (interval 100 000 s) so only the task distributor can deliver. A Consistency::None put on node 1 must be in every live peer's storage after two batch windows; then one peer leaves the membership and, a batch window later, another None put must not be addressed to it (requests per destination counted by the transport policy) while the remaining peers still receive it; finally a remaining peer changes its address (same id, one delta with left=[id@old] joined=[id@new]) and a third put must arrive at the new address and not be sent to the old one. Second scenario (the repair poller's member list): node 1 runs the real poller (2 s) with two steady peers; a further node joins and leaves (or flaps, or moves to a new address before leaving) with 50..400 ms between the snapshots - usually several events between two poller ticks; once membership is quiescent, two full poller cycles are watched at the transport: exactly the live peers must be polled, never the departed node's addresses. Third scenario (membership changes during a burst of writes): node 1 with two steady peers issues 100..10 000 None-level puts / deletes / bulk puts within one batching interval (no virtual time passes) and, while the task distributor still has them all queued, a further peer joins and / or a steady peer leaves; membership is quiescent afterwards: the next None-level write must reach the joined peer and the remaining steady peer within two batch windows and must not be addressed to the departed one. Non-trivial: every scenario; distinct = (scenario, mode, peers, departed).",
     );
     if let Some(path) = &args.replay {
         let r = read_replay(path);
         if r["mode"] == "poller" {
             report.absorb(block_on_paused(c16_poller_case(r["seed"].as_u64().unwrap(), r["scenario"].as_u64().unwrap())));
+        } else if r["mode"] == "burst" {
+            report.absorb(block_on_paused(c16_burst_case(r["seed"].as_u64().unwrap(), r["scenario"].as_u64().unwrap())));
         } else {
             report.absorb(block_on_paused(c16_e2e_case(r["seed"].as_u64().unwrap(), r["scenario"].as_u64().unwrap(), r["joins_before_store"].as_bool().unwrap())));
         }
@@ -1627,6 +1751,9 @@ pub fn c16_e2e(args: &Args) {
     run_cases(&mut report, n, args.threads, Duration::from_secs(args.pick(100, 1500)), |i| block_on_paused(c16_e2e_case(seed, i, i % 2 == 1)));
     let n_poller = args.pick(2_000, 100_000);
     run_cases(&mut report, n_poller, args.threads, Duration::from_secs(args.pick(100, 1500)), |i| block_on_paused(c16_poller_case(seed, i)));
+    let n_burst = args.pick(96, 3_000);
+    run_cases(&mut report, n_burst, args.threads, Duration::from_secs(args.pick(100, 1500)), |i| block_on_paused(c16_burst_case(seed, i)));
+    report.floor("bursts_of_more_than_4096_writes_in_one_batch_window", 20);
     report.floor("quiescent_poller_windows_observed", 500);
     report.floor("none_level_writes_followed", 200);
     report.floor("departures_followed", 200);
